@@ -221,7 +221,10 @@ def evaluate__mod_operator(self: XPathToken, context: ta.ContextType = None) \
             not (isinstance(op1, float) and math.isinf(op1)):
         if self.parser.version == '1.0':
             return math.nan
-        return op1 if isinstance(op1, float) else float(op1)
+        try:
+            return op1 if isinstance(op1, float) else float(op1)
+        except OverflowError as err:
+            raise self.error('FOAR0002', err) from None
 
     try:
         if isinstance(op1, int) and isinstance(op2, int):
